@@ -44,6 +44,10 @@ def cases(tier, seed):
             cid = "f:%s:%s" % (fam, al.expr_id(s))
             if cid not in have:
                 specs.append({"id": cid, "exprs": fn(s), "deg": True})
+    # the same laws for compound shapes that have been used and then moved in place
+    for base in (["PC", "two", "int"], ["PC", "hollow", "int"], ["PC", "xtwo", "int"], ["PC", "holeisland", "int"], ["L", "P.triA#int"], ["PC", "xhollow", "frac"]):
+        mv = ["MV", base, 60, 45]
+        specs.append({"id": "f:laws:" + al.expr_id(mv), "exprs": progs.law_exprs(mv), "deg": True})
     return specs
 
 
